@@ -133,6 +133,10 @@ class SiteSet:
         self.has, self.note = has, note
 
 
+class SliceSet(SiteSet):
+    """a python slice of sites (1D): ``has`` : the skolem site lies in the slice"""
+
+
 class SiteElem:
     """the generic element of a SiteSet (comprehension variable)"""
 
@@ -565,6 +569,10 @@ class ReindexBase(LabelContract):
         return with_cx(cx, dict(self=general_net(cx, self.cls, "T"), new_id=mk_id(cx, "new_id"),
                                 where=None if case.where == "None" else SiteSet(cx.Bool("s_in_where"), "where"),
                                 inplace=case.inplace))
+
+    def requires_cx(self, cx, a, case):
+        # the generic versions iterate over ``where``: a python slice is only understood by the 1D override
+        return {"where-is-a-collection-of-sites": a.where is None or type(a.where) is SiteSet}
 
     def modifies(self, a, case):
         return [(a.self, ["layers"])] if case.inplace else []
@@ -1413,4 +1421,232 @@ class DMRGXInit(DMRGContract):
         d["ham-and-p0-untouched"] = And(same_state(cx.fields(a.ham), Hin), same_state(cx.fields(a.p0), Pin))
         # the first energy network of the base class is still <b|ham|k>
         stack_posts(d, "TN_energy", cx.fields(S["TN_energy"])["layers"])
+        return d
+
+
+# ------------------------------------------------------------------------------------------------------------
+# C09 / C13: MatrixProductState.partial_trace_to_mpo  (and the 1D override of reindex_sites it goes through)
+# ------------------------------------------------------------------------------------------------------------
+
+
+
+
+class RMap:
+    """a label -> label dict filled inside a loop over the kept sites.  Ghost: ``ok`` (every entry maps id.format(old) to
+    the SAME id.format(new) for the (new, old) pair of its iteration) and, per tracked id, the number of such entries"""
+
+    def __init__(self, ok, counts):
+        self.ok, self.counts = ok, dict(counts)  # counts: {name: (id, z3 Int)}
+
+
+def rmap_of(v, tracked):
+    """view of a loop-carried dict: the python dict before the loop ({}), an RMap inside / after it"""
+    if isinstance(v, RMap):
+        return v
+    if isinstance(v, dict) and not v:
+        return RMap(z3.BoolVal(True), {k: (i, z3.IntVal(0)) for k, i in tracked.items()})
+    raise Unsupported(f"loop-carried map {v!r}")
+
+
+class OneD(LabelContract):
+    """1D classes: reindex_sites is the override of TensorNetwork1DVector (accepts slices)"""
+
+    methods = dict(LabelContract.methods, reindex_sites=f"{TN1D}::TensorNetwork1DVector.reindex_sites")
+
+    def call(self, cx, name, args, kwargs, node):
+        if name == "__isinstance__":
+            v, cname = args
+            if cname == "slice":
+                return isinstance(v, SliceSet)
+            if cname == "Tensor" and is_tn(v):
+                return False  # (a fully contracted network is wrapped again by as_network: same labels)
+            raise Unsupported(f"isinstance(..., {cname})")
+        if name == "sorted" and isinstance(args[0], SiteSet):
+            r = SiteSet(args[0].has, "sorted " + args[0].note)
+            r.size = self.size_of(cx, args[0])  # same sites, same number of them
+            return r
+        if name in ("max", "min") and len(args) == 1 and isinstance(args[0], SiteSet):
+            return cx.Int(name + "_site")
+        if name == "len" and isinstance(args[0], SiteSet):
+            return self.size_of(cx, args[0])
+        if name == "enumerate" and isinstance(args[0], SiteSet):
+            at = z3.Function("keep_at", z3.IntSort(), z3.IntSort())
+            return SymIter(self.size_of(cx, args[0]), lambda t: (t, at(t)))
+        if name == "__contains__" and isinstance(args[0], SiteSet):
+            return z3.Function("site_in", z3.IntSort(), z3.BoolSort())(args[1]) if is_z3(args[1]) else cx.Bool("site_in")
+        if name == "__setitem__" and isinstance(args[0], RMap):
+            m, k, v = args
+            if not (isinstance(k, Label) and isinstance(v, Label)):
+                raise Unsupported("rescale map entry that is not label -> label")
+            new, old = cx.env.get("new"), cx.env.get("old")
+            good = And(k.fam == v.fam, k.site == old, v.site == new)
+            m.ok = And(m.ok, good)
+            m.counts = {nm: (i, c + If(And(good, k.fam == i), 1, 0)) for nm, (i, c) in m.counts.items()}
+            return None
+        if name == "super().reindex_sites":
+            return cx.call_contract(REGISTRY[ReindexSites.target], list(args), kwargs, node, recv=cx.env["self"])
+        return super().call(cx, name, args, kwargs, node)
+
+    def size_of(self, cx, s):
+        if not hasattr(s, "size"):
+            s.size = cx.Int("n_keep")
+            cx.assume(s.size >= 0)
+        return s.size
+
+    def tn_method(self, cx, m, tn, args, kwargs, node):
+        f = cx.fields(tn)
+        if m == "slice2sites":
+            if not isinstance(args[0], SliceSet):
+                raise PyRaise("AttributeError", node.lineno)  # (uses slice.start / .stop / .step)
+            r = SiteSet(args[0].has, "sites of the slice")
+            r.size = self.size_of(cx, args[0])
+            return r
+        if m == "site_tag":
+            return Label(f["_site_tag_id"], args[0])
+        if m == "as_network":
+            return tn
+        if m == "view_as_":
+            # leaf: casts the network to the class and stores the given properties (no relabelling)
+            if not (isinstance(args[0], Marker) and args[0].name == "MatrixProductOperator"):
+                raise Unsupported("view_as_ of another class")
+            for k in [k for k in f if k in ("_site_ind_id",)]:
+                del f[k]
+            f.update(cls="op", _upper_ind_id=as_id(cx, kwargs["upper_ind_id"]),
+                     _lower_ind_id=as_id(cx, kwargs["lower_ind_id"]), _site_tag_id=kwargs["site_tag_id"],
+                     L=kwargs["L"], cyclic=kwargs["cyclic"])
+            return tn
+        return super().tn_method(cx, m, tn, args, kwargs, node)
+
+    def attr(self, cx, base, attr, node):
+        if is_tn(base) and attr == "site_tag_id":
+            return cx.fields(base)["_site_tag_id"]
+        return super().attr(cx, base, attr, node)
+
+    def leaf_reindex(self, cx, tn, m, inplace, node):
+        if isinstance(m, RMap) or (isinstance(m, dict) and not m):
+            # a site renumbering old -> new inside each id: the label FAMILIES on every leg are unchanged
+            if isinstance(m, RMap):
+                cx.oblige(f"call-pre@{node.lineno}:reindex:renumbering-keeps-every-label-in-its-family", "call-pre", m.ok,
+                          node.lineno)
+            if not inplace:
+                return copy_obj(cx, tn)
+            cx.fields(tn)["renumbered_by"] = m
+            return tn
+        return super().leaf_reindex(cx, tn, m, inplace, node)
+
+
+@register
+class ReindexSites1D(OneD):
+    """TensorNetwork1DVector.reindex_sites: as the generic one; a slice stands for its sites"""
+
+    target = f"{TN1D}::TensorNetwork1DVector.reindex_sites"
+    floor = 10
+
+    def cases(self):
+        return [NS(name=f"where={w},inplace={i}", where=w, inplace=i) for w in ("None", "slice", "given")
+                for i in (True, False)]
+
+    def case_of_call(self, cx, a):
+        w = "None" if a.where is None else ("slice" if isinstance(a.where, SliceSet) else "given")
+        if not isinstance(a.inplace, bool):
+            raise Unsupported("symbolic inplace")
+        return NS(name="call", where=w, inplace=a.inplace)
+
+    def mk_inputs(self, cx, case):
+        w = {"None": None, "slice": SliceSet(cx.Bool("s_in_slice"), "slice"),
+             "given": SiteSet(cx.Bool("s_in_where"), "where")}[case.where]
+        return with_cx(cx, dict(self=general_net(cx, "vec", "T"), new_id=mk_id(cx, "new_id"), where=w,
+                                inplace=case.inplace))
+
+    def modifies(self, a, case):
+        return [(a.self, ["layers"])] if case.inplace else []
+
+    def fresh_result(self, cx, a, case):
+        return a.self if case.inplace else cx.new_obj("TN", **fresh_like(cx, cx.pre(a.self), "ri"))
+
+    def ensures(self, a, r, cx, case):
+        return ReindexSites.ensures(REGISTRY[ReindexSites.target], a, r, cx, case)
+
+
+@register
+class PartialTraceToMPO(OneD):
+    """partial_trace_to_mpo(keep, upper_ind_id, rescale_sites): rho = tr_rest |psi><psi| as an MPO whose declared UPPER id
+    (rows) labels the UNCONJUGATED layer and whose LOWER id (columns) the conjugated layer on every kept site; on the
+    other sites the two layers share their label (traced)"""
+
+    target = f"{TN1D}::MatrixProductState.partial_trace_to_mpo"
+    floor = 60
+
+    def cases(self):
+        return [NS(name=f"keep={k},rescale={r}", keep=k, rescale=r) for k in ("seq", "slice") for r in (True, False)]
+
+    def mk_inputs(self, cx, case):
+        keep = (SliceSet if case.keep == "slice" else SiteSet)(cx.Bool("s_kept"), "keep")
+        return with_cx(cx, dict(self=new_vec(cx, "psi"), keep=keep, upper_ind_id=mk_id(cx, "bra_id"),
+                                rescale_sites=case.rescale))
+
+    def requires_cx(self, cx, a, case):
+        P = cx.pre(a.self)
+        return {"wf-psi": wf(P), "bra-id-differs-from-site-id": as_id(cx, a.upper_ind_id) != P["_site_ind_id"]}
+
+    def tracked(self, v):
+        P = v.cx.pre(v.old.self)
+        return ({"site": P["_site_ind_id"], "bra": as_id(v.cx, v.old.upper_ind_id)}, {"tag": P["_site_tag_id"]})
+
+    def inv_rescale(self, v):
+        ti, tt = self.tracked(v)
+        reind, retag = rmap_of(v.reind, ti), rmap_of(v.retag, tt)
+        d = {"renumbering-keeps-families": And(reind.ok, retag.ok)}
+        for nm, (i, c) in list(reind.counts.items()) + list(retag.counts.items()):
+            d[f"one-entry-per-kept-site:{nm}"] = c == v._it1
+        d.update(self.frame_inv("loop1")(v))
+        return d
+
+    def retype(self, which):
+        def mk(cx):
+            P = cx.pre(cx.old.self)
+            tr = {"site": P["_site_ind_id"], "bra": as_id(cx, cx.old.upper_ind_id)} if which == "reind" else \
+                {"tag": P["_site_tag_id"]}
+            return RMap(cx.Bool(f"{which}_ok"), {k: (i, cx.Int(f"{which}_n_{k}")) for k, i in tr.items()})
+
+        return mk
+
+    @property
+    def loops(self):
+        return {0: Loop("for i in self.gen_sites_present()", self.frame_inv("loop0")),
+                1: Loop("for (new, old) in enumerate(keep)", self.inv_rescale,
+                        retype={"reind": self.retype("reind"), "retag": self.retype("retag")})}
+
+    def ensures(self, a, r, cx, case):
+        d = {"result-is-network": is_tn(r)}
+        if not is_tn(r):
+            return d
+        P, R = cx.pre(a.self), cx.fields(r)
+        psi = P["layers"][0]
+        kept, bra_id = a.keep.has, as_id(cx, a.upper_ind_id)
+        d["psi-untouched"] = same_state(cx.fields(a.self), P)
+        d["result-is-a-new-operator"] = r.oid not in cx.pre_heap and R["cls"] == "op"
+        if R["cls"] != "op" or len(R["layers"]) != 2 or any(l.roles != ("site",) for l in R["layers"]):
+            d["result-holds-two-copies-of-psi"] = False
+            return d
+        l0, l1 = R["layers"]
+        d["one-unconjugated-one-conjugated-layer"] = And(l0.conj != l1.conj, l0.present == psi.present,
+                                                         l1.present == psi.present)
+        for j, l in enumerate((l0, l1)):
+            d[f"rows:upper-id-on-the-unconjugated-layer[{j}]"] = Implies(
+                And(psi.present, kept, l.conj == psi.conj), l.slot("site") == R["_upper_ind_id"])
+            d[f"columns:lower-id-on-the-conjugated-layer[{j}]"] = Implies(
+                And(psi.present, kept, l.conj != psi.conj), l.slot("site") == R["_lower_ind_id"])
+        d["traced-sites-share-their-label"] = Implies(And(psi.present, Not(kept)), l0.slot("site") == l1.slot("site"))
+        d["upper-and-lower-ids-differ"] = R["_upper_ind_id"] != R["_lower_ind_id"]
+        d["declared-ids-are-(site-id,bra-id)"] = And(R["_upper_ind_id"] == P["_site_ind_id"], R["_lower_ind_id"] == bra_id)
+        d["tag-id-kept"] = R["_site_tag_id"] == P["_site_tag_id"]
+        if case.rescale:
+            m = R.get("renumbered_by")
+            d["kept-sites-renumbered-in-both-ids"] = isinstance(m, RMap) and And(
+                m.ok, *[c == self.size_of(cx, a.keep) for _, (i, c) in m.counts.items()])
+            d["length-is-number-of-kept-sites"] = R["L"] == self.size_of(cx, a.keep)
+        else:
+            d["sites-keep-their-numbers"] = "renumbered_by" not in R
+            d["length-kept"] = R["L"] == P["L"]
         return d
